@@ -195,6 +195,21 @@ fn gen_case<const D: usize>(cs: u64, thorough: bool) -> Spec<D> {
             pts.insert(at, p);
         }
     }
+    // now and then one or two far outliers (2^34 x the extent, exactly representable): the space-filling
+    // orderings quantise the bounding box to 64/D (Morton) or 31/25 (Hilbert) bits per axis, so all the
+    // other points then share one code and only the tie-break decides their order
+    if !pts.is_empty() && rng.chance(1, 5) {
+        let ext = pts.iter().flat_map(|p| p.iter().map(|x| x.abs())).fold(1.0f64, f64::max);
+        let far = 2f64.powi(34) * 2f64.powf(ext.log2().ceil());
+        for k in 0..1 + rng.usize(2) {
+            let mut p = [0.0; D];
+            for (j, x) in p.iter_mut().enumerate() {
+                *x = far * [1.0, 0.25, 0.5, 0.75, 0.125][(j + 2 * k + rng.usize(2)) % 5];
+            }
+            let at = rng.usize(pts.len() + 1);
+            pts.insert(at, p);
+        }
+    }
     let inp = tri::mk_inputs(&mut rng, &pts);
     let gu = *rng.pick(&GUARANTEES);
     let mut opts = Opts::random(&mut rng);
